@@ -35,7 +35,7 @@ C = {
          "Request/response pairing through per-request channels; linearizability argument for a single-threaded server is trusted reasoning."),
  "C16": ("monitor.run: initialize first and once with the list read after Ready, then exactly one matching callback per event, none after shutdown, none if never ready; typed adapters call the same-kind callback iff adaptation succeeded.",
          "Events carry one of the three types (established at producers)."),
- "C17": ("Soundness of every Equals/FiltersEqual in /repo: result => same accept, proved on the SSA; immutability of representations generated as structural obligations. Completeness and order-independence NOT proved.",
+ "C17": ("Soundness of every Equals/FiltersEqual in /repo: result => same accept, proved on the SSA; immutability of representations generated as structural obligations. Completeness: every Equals proved against 'built the same way => true', one lemma per constructor over the constructor's own postconditions. Order-independence of the seven PodsFilter functions (sources with pairwise distinct namespace/name) and of ingress.ServicesFilter: comparator under contract, sort.Slice sorted by it, uniqueness of the sorted arrangement by induction, canonical-order view of each function, per-package lemma over two calls.",
          "reflect.DeepEqual / labels.Equals contracts; callers do not mutate maps handed to filters."),
  "C18": ("Every Accept in filter/ equals the accept function axiomatised from the property's sentences; constructors establish the representations; purity by empty frame.",
          "Kubernetes label matching is an assumed library contract."),
